@@ -866,8 +866,15 @@ type value struct {
 	acc    func() string
 }
 
+// arenaHook, when set, chooses the arena of the next value (part hostile).
+var arenaHook func() capnp.Arena
+
 func newSeg() *capnp.Segment {
-	_, seg, err := capnp.NewMessage(capnp.SingleSegment(nil))
+	var a capnp.Arena = capnp.SingleSegment(nil)
+	if arenaHook != nil {
+		a = arenaHook()
+	}
+	_, seg, err := capnp.NewMessage(a)
 	must(err)
 	return seg
 }
@@ -1033,14 +1040,20 @@ func floatsField() string {
 	return strings.Join(it, ",")
 }
 
-var schemaEmitted = false
+// which schema description the model driver currently holds: "" none, "air", "rec"
+var schemaEmitted = ""
 
-func emitSchema(out *Out) {
-	if schemaEmitted {
+func emitSchema(out *Out) { emitSchemaOf(out, "air") }
+
+func emitSchemaOf(out *Out, which string) {
+	if schemaEmitted == which {
 		return
 	}
-	schemaEmitted = true
+	schemaEmitted = which
 	line := schemaDesc()
+	if which == "rec" {
+		line = recSchemaDesc()
+	}
 	n := strings.Count(line, "(S,") + strings.Count(line, "(E,") + strings.Count(line, "(O,")
 	out.Case("schema", line, fmt.Sprintf("ok nodes=%d", n), "ok", false)
 }
